@@ -559,6 +559,18 @@ theorem tGs_wf : WF tGs tRank := (wfCert_sound tGs tGs_cert).2.1
 example (nested : Bool) (incl : Option (List String)) : ∃ g', decomposeGlyph tGs nested incl tTop = .ok g' :=
   decomposeGlyph_ok tGs tRank tGs_wf.ranked tGs_wf.closed nested incl tTop (tGs_wf.closed "top" tTop rfl)
 
+/-- ... and the two errors do occur where characterised: `recursion` on a cyclic set, `missing` on a non-closed one -/
+def cycGs : GlyphSet := [("a", ⟨"a", 0, 0, [], [⟨"a", Affine.id⟩], []⟩)]
+example : decomposeGlyph cycGs true none ⟨"a", 0, 0, [], [⟨"a", Affine.id⟩], []⟩ = .error .recursion ∧
+    ¬ ∃ rank, Ranked cycGs rank := by
+  have h : decomposeGlyph cycGs true none ⟨"a", 0, 0, [], [⟨"a", Affine.id⟩], []⟩ = .error .recursion := by
+    simp [decomposeGlyph, addComps, addComp, isIncluded, inclNested, cycGs, GlyphSet.get?, alookup]
+  rcases decomposeGlyph_error _ _ _ _ _ h with ⟨_, h2⟩ | ⟨b, h2, _⟩
+  · exact ⟨h, h2⟩
+  · cases h2
+example : decomposeGlyph tGs true none ⟨"x", 0, 0, [], [⟨"nope", Affine.id⟩], []⟩ = .error (.missing "nope") := by
+  simp [decomposeGlyph, addComps, addComp, isIncluded, tGs, GlyphSet.get?, alookup]
+
 /-- 2. the traversal order exists and is a permutation of the keys -/
 example : ∃ order, orderedGlyphs tGs = .ok order ∧ order.Perm ["top", "other", "mid", "mir", "base"] :=
   orderedGlyphs_ok tGs tRank tGs_wf.ranked tGs_wf.named tGs_wf.nodup
